@@ -1,13 +1,148 @@
-//! c15: bounded stand-in (E3) -- see DESIGN.md section 5
-#![allow(dead_code, unused_imports)]
+//! C15: ToUnicode CMaps decode text as the CMap defines (bounded: CMaps generated from every sequence of <= 3
+//! definitions over a pool, every sectioning, two white-space styles; oracle = "last definition covering the code wins").
+#![allow(dead_code)]
 use crate::common::*;
 use crate::gen::*;
+use lopdf::{Dictionary, Document, Object, Stream};
+use rayon::prelude::*;
 use serde_json::{json, Value};
 
-pub fn run(_thorough: bool) -> Report {
-    Report::new("not built yet", false)
+#[derive(Clone, Debug)]
+pub enum Def {
+    Char(u32, Vec<u16>),
+    RangeStr(u32, u32, Vec<u16>),
+    RangeArr(u32, u32, Vec<Vec<u16>>),
 }
 
-pub fn replay(_v: &Value) -> Result<(), String> {
-    Err("no replay".into())
+fn pool(code_len: usize) -> Vec<Def> {
+    let b = if code_len == 1 { 0x10 } else { 0x0110 };
+    vec![
+        Def::Char(b + 2, vec![0x0041]),
+        Def::Char(b + 3, vec![0xD83D, 0xDE00]),                       // surrogate pair -> one character
+        Def::Char(b + 1, vec![0x0066, 0x0069]),                       // ligature: two units
+        Def::RangeStr(b, b + 5, vec![0x0061]),                       // incrementing single unit
+        Def::RangeStr(b + 1, b + 4, vec![0x0391]),
+        Def::RangeStr(b + 2, b + 3, vec![0x0058, 0x0030]),            // multi-unit target: last unit increments
+        Def::RangeStr(b, b + 2, vec![0xD835, 0xDC00]),                // astral range: low surrogate increments
+        Def::RangeArr(b, b + 5, (0..6).map(|i| vec![0x0100 + 7 * i]).collect()),
+        Def::RangeArr(b + 3, b + 5, vec![vec![0x004C, 0x004C], vec![0x2603], vec![0xD83D, 0xDE01]]),
+        Def::RangeStr(b + 4, b + 4, vec![0x005A]),
+        Def::RangeStr(b + 3, b + 5, vec![0x0061 + 3]),               // equal to a slice of the first range (may coalesce)
+        Def::Char(b + 5, vec![0x00E9]),
+    ]
+}
+
+/// reference semantics: the last definition that covers the code
+fn lookup(defs: &[Def], code: u32) -> Option<Vec<u16>> {
+    let mut r = None;
+    for d in defs {
+        match d {
+            Def::Char(c, u) if *c == code => r = Some(u.clone()),
+            Def::RangeStr(lo, hi, u) if *lo <= code && code <= *hi => { let mut v = u.clone(); let l = v.len() - 1; v[l] = v[l].wrapping_add((code - lo) as u16); r = Some(v); }
+            Def::RangeArr(lo, hi, a) if *lo <= code && code <= *hi => { if let Some(u) = a.get((code - lo) as usize) { r = Some(u.clone()); } }
+            _ => {}
+        }
+    }
+    r
+}
+
+fn hexu(u: &[u16]) -> String { u.iter().map(|x| format!("{:04X}", x)).collect() }
+fn hexc(c: u32, len: usize) -> String { format!("{:0w$X}", c, w = 2 * len) }
+
+/// render with `sectioning`: bit k set = definition k+1 starts a new section even if it has the same kind as definition k
+fn render(defs: &[Def], code_len: usize, sectioning: u32, style: usize) -> Vec<u8> {
+    let nl = if style == 0 { "\n" } else { "\r\n" };
+    let sp = if style == 0 { " " } else { "  " };
+    let mut s = String::new();
+    s.push_str(&format!("/CIDInit /ProcSet findresource begin{nl}12 dict begin{nl}begincmap{nl}/CIDSystemInfo << /Registry (Adobe) /Ordering (UCS) /Supplement 0 >> def{nl}/CMapName /Adobe-Identity-UCS def{nl}/CMapType 2 def{nl}1 begincodespacerange{nl}<{}>{sp}<{}>{nl}endcodespacerange{nl}", hexc(0, code_len), hexc(if code_len == 1 { 0xFF } else { 0xFFFF }, code_len)));
+    let kind = |d: &Def| matches!(d, Def::Char(..));
+    let mut i = 0;
+    while i < defs.len() {
+        let mut j = i;
+        while j + 1 < defs.len() && kind(&defs[j + 1]) == kind(&defs[i]) && (sectioning >> j) & 1 == 0 { j += 1; }
+        let n = j - i + 1;
+        if kind(&defs[i]) { s.push_str(&format!("{} beginbfchar{nl}", n)); } else { s.push_str(&format!("{} beginbfrange{nl}", n)); }
+        for d in &defs[i..=j] {
+            match d {
+                Def::Char(c, u) => s.push_str(&format!("<{}>{sp}<{}>{nl}", hexc(*c, code_len), hexu(u))),
+                Def::RangeStr(lo, hi, u) => s.push_str(&format!("<{}>{sp}<{}>{sp}<{}>{nl}", hexc(*lo, code_len), hexc(*hi, code_len), hexu(u))),
+                Def::RangeArr(lo, hi, a) => { s.push_str(&format!("<{}>{sp}<{}>{sp}[", hexc(*lo, code_len), hexc(*hi, code_len))); for u in a { s.push_str(&format!("<{}>{sp}", hexu(u))); } s.push_str(&format!("]{nl}")); }
+            }
+        }
+        s.push_str(if kind(&defs[i]) { "endbfchar" } else { "endbfrange" }); s.push_str(nl);
+        i = j + 1;
+    }
+    s.push_str(&format!("endcmap{nl}CMapName currentdict /CMap defineresource pop{nl}end{nl}end"));
+    s.into_bytes()
+}
+
+fn decode(cmap: &[u8], bytes: &[u8]) -> Result<String, String> {
+    let mut d = Document::with_version("1.5");
+    let sid = d.add_object(Stream::new(Dictionary::new(), cmap.to_vec()));
+    let mut font = Dictionary::new();
+    font.set("Type", name(b"Font")); font.set("Subtype", name(b"Type0")); font.set("Encoding", name(b"Identity-H")); font.set("ToUnicode", Object::Reference(sid));
+    let enc = font.get_font_encoding(&d).map_err(|e| format!("CMap rejected: {}", e))?;
+    enc.bytes_to_string(bytes).map_err(|e| e.to_string())
+}
+
+pub fn check(defs: &[Def], code_len: usize, sectioning: u32, style: usize) -> Result<(), (String, String)> {
+    let cmap = render(defs, code_len, sectioning, style);
+    let base: u32 = if code_len == 1 { 0x10 } else { 0x0110 };
+    let mut all_bytes = vec![];
+    let mut all_expected = String::new();
+    for code in base..base + 6 {
+        let Some(units) = lookup(defs, code) else { continue };
+        let want = String::from_utf16(&units).map_err(|_| ("oracle".to_string(), "pool produced an invalid UTF-16 target".to_string()))?;
+        let bytes: Vec<u8> = if code_len == 1 { vec![code as u8] } else { vec![(code >> 8) as u8, code as u8] };
+        match guarded(std::panic::AssertUnwindSafe(|| decode(&cmap, &bytes))) {
+            Err(p) => return Err(("no-panic".into(), p)),
+            Ok(Err(e)) => return Err(("decodes".into(), format!("code <{}>: {}", hexc(code, code_len), e))),
+            Ok(Ok(got)) => if got != want { return Err(("code-maps-to-last-definition".into(), format!("code <{}> should decode to {:?} (last covering definition), decoded {:?}; definitions {:?}", hexc(code, code_len), want, got, defs))); }
+        }
+        all_bytes.extend_from_slice(&bytes); all_expected.push_str(&want);
+    }
+    match guarded(std::panic::AssertUnwindSafe(|| decode(&cmap, &all_bytes))) {
+        Ok(Ok(got)) if got == all_expected => Ok(()),
+        other => Err(("string-of-mapped-codes".into(), format!("all mapped codes in a row should decode to {:?}, got {:?}", all_expected, other))),
+    }
+}
+
+fn defs_json(defs: &[Def], code_len: usize, sectioning: u32, style: usize) -> Value {
+    json!({"code_len": code_len, "sectioning": sectioning, "style": style, "defs": defs.iter().map(|d| match d {
+        Def::Char(c, u) => json!({"k": "char", "c": c, "u": u}), Def::RangeStr(lo, hi, u) => json!({"k": "str", "lo": lo, "hi": hi, "u": u}), Def::RangeArr(lo, hi, a) => json!({"k": "arr", "lo": lo, "hi": hi, "a": a}) }).collect::<Vec<_>>()})
+}
+fn defs_from(v: &Value) -> (Vec<Def>, usize, u32, usize) {
+    let u16s = |x: &Value| -> Vec<u16> { x.as_array().cloned().unwrap_or_default().iter().map(|y| y.as_u64().unwrap_or(0) as u16).collect() };
+    let defs = v["defs"].as_array().cloned().unwrap_or_default().iter().map(|d| match d["k"].as_str() {
+        Some("char") => Def::Char(d["c"].as_u64().unwrap() as u32, u16s(&d["u"])),
+        Some("str") => Def::RangeStr(d["lo"].as_u64().unwrap() as u32, d["hi"].as_u64().unwrap() as u32, u16s(&d["u"])),
+        _ => Def::RangeArr(d["lo"].as_u64().unwrap() as u32, d["hi"].as_u64().unwrap() as u32, d["a"].as_array().cloned().unwrap_or_default().iter().map(u16s).collect()),
+    }).collect();
+    (defs, v["code_len"].as_u64().unwrap_or(2) as usize, v["sectioning"].as_u64().unwrap_or(0) as u32, v["style"].as_u64().unwrap_or(0) as usize)
+}
+
+pub fn run(thorough: bool) -> Report {
+    let mut rep = Report::new("code lengths {1, 2} x every sequence of 1..3 definitions (with repetition, order significant) over a pool of 12 (bfchar single / surrogate pair / two units; bfrange with single unit, multi-unit, astral and array targets; overlapping, nested, adjacent and coalescable ranges) x every sectioning of the sequence x 2 white-space/EOL styles; every mapped code alone and all mapped codes in one string", true);
+    let _ = thorough;
+    let mut cases = vec![];
+    for code_len in [2usize, 1] {
+        let p = pool(code_len);
+        for a in 0..p.len() { cases.push((vec![p[a].clone()], code_len)); for b in 0..p.len() { cases.push((vec![p[a].clone(), p[b].clone()], code_len)); for c in 0..p.len() { cases.push((vec![p[a].clone(), p[b].clone(), p[c].clone()], code_len)); } } }
+    }
+    let results: Vec<(usize, Vec<(String, String, Value)>, u64)> = cases.par_iter().enumerate().map(|(i, (defs, code_len))| {
+        let mut f = vec![]; let mut n = 0;
+        for sectioning in 0..(1u32 << (defs.len() - 1)) { for style in 0..2 {
+            n += 1;
+            if let Err((o, d)) = check(defs, *code_len, sectioning, style) { f.push((o, d, defs_json(defs, *code_len, sectioning, style))); }
+        } }
+        (i, f, n)
+    }).collect();
+    for (_, f, n) in results { rep.evaluations += n; rep.nontrivial += n; for (o, d, inp) in f { rep.fail(&o, d.clone(), inp, d); } }
+    rep.sample(String::from_utf8_lossy(&render(&[pool(2)[7].clone(), pool(2)[0].clone(), pool(2)[5].clone()], 2, 1, 0)).chars().skip(250).take(260).collect());
+    rep
+}
+
+pub fn replay(v: &Value) -> Result<(), String> {
+    let (defs, code_len, sectioning, style) = defs_from(v);
+    check(&defs, code_len, sectioning, style).map_err(|e| format!("{}: {}", e.0, e.1))
 }
